@@ -255,6 +255,9 @@ func runC08(r *Run) {
 	}
 	c08Wire(r)
 	consistencyHammer(r, "[C08]")
+	if r.unknownViolations() == 0 {
+		systemRotation(r, "[C08]") // chain selection is untouched by background client-secret rotation
+	}
 	r.Finish("requests sent by a real gRPC client to the real gRPC server of the service (interceptors included) over an in-memory connection, with the requests log scope at info and at debug, criteria on authorization / proxy-authorization / cookie headers; every list of up to the stated number of chains over 30 chain types (5 criteria x 6 filter sequences) x allow_unmatched x 5 header maps (exhaustive), plus random lists of 0-4 chains incl. zero-filter chains, bare criteria, mixed-case names; " +
 		"each case runs the real ExtAuthZFilter.Check with mock filters, the Lean `check`, and the Go reference evaluator; non-trivial = at least two chains, distinct by the whole layout")
 }
